@@ -190,6 +190,17 @@ CLAIMED = {
         design_ref="DESIGN.md section 5, C18",
         technique="Coq proof over Reals (ring/nra/interval) with reflection on the regenerated table; code-vs-formula tie by per-combination kernel-checked interval enclosures and exact comparison of the case analysis",
         note=NOTE_COMMON + " Axioms (all from the standard library / Interval's dependencies): Reals (ClassicalDedekindReals.sig_forall_dec, sig_not_dec), Classical_Prop.classic, FunctionalExtensionality.functional_extensionality_dep, Uint63/PrimInt63 primitives used by Interval's software floats (i_prec given, so no PrimFloat axioms)."),
+    "C15": dict(
+        text="Theorems on the discrete part: for element symbols without digits the generated atom-site labels are pairwise distinct (a digit-free "
+             "prefix followed by a decimal numeral splits uniquely; hypothesis shown necessary by 'C1'+'1' = 'C'+'11'), hence every bond, angle and "
+             "torsion written as label tuples is read back through list.index between the same atoms; the space-group guard accepts exactly a "
+             "missing tag, 'P1' and 'P 1'. PARTIAL: the numerical part (cell parameters via arccos/cellpar_to_cell, fractional coordinates via a "
+             "matrix inverse, '%.4f', wrapping) and the CIF text (PyCifRW) are not modelled; on every run structures are written, read back and "
+             "compared to the printed precision, three generations of text are compared, ASE's independent reader must agree, files with "
+             "uncertainty parentheses and Cartesian coordinates are read, and a non-P1 file must be rejected.",
+        design_ref="DESIGN.md section 5, C15",
+        technique="Coq proof of the label/index bookkeeping and the guard; numerical round trip validated by write/read runs against the statement and an independent reader (partial)",
+        note=NOTE_COMMON + " Partial: numbers and text layer are tested, not modelled. PyCifRW 5.0.1 and ASE are trusted glue."),
 }
 
 PENDING_REASON = "no check registered yet: the Coq model and correspondence for this property are still being built (see DESIGN.md section 7 work order); nothing is claimed"
